@@ -28,7 +28,7 @@ SpecCell(gg, s, X) == A[gg].tbl[s + 1][X]
 DumpCell(gg, s, X) == Ds[gg].table[s + 1][SymIdx(gg, X)]
 
 GRof(gg) == [nnt |-> Gs[gg].nnt, nt |-> Gs[gg].nt, R |-> A[gg].R, tnames |-> Gs[gg].tnames,
-             ruletext |-> Gs[gg].ruletext, obsT |-> Gs[gg].obsT, obsC |-> Gs[gg].obsC, dflt |-> Gs[gg].dflt, ctxr |-> Gs[gg].ctxr, noval |-> Gs[gg].noval, lexobs |-> Gs[gg].lexobs]
+             ruletext |-> Gs[gg].ruletext, obsT |-> Gs[gg].obsT, obsC |-> Gs[gg].obsC, dflt |-> Gs[gg].dflt, ctxr |-> Gs[gg].ctxr, noval |-> Gs[gg].noval, nvterms |-> Gs[gg].nvterms, lexobs |-> Gs[gg].lexobs]
 
 \* reference lexer for grammars whose terms are single characters (host grammars): first listed wins
 RECURSIVE FirstCharTerm(_, _, _)
@@ -106,6 +106,9 @@ LexByte(gg, bytes, p, zd) ==
       ln == ((b - 64) % 4) + 1
   IN IF b >= 128 /\ b < 144
      THEN (IF b - 128 >= Gs[gg].nt THEN <<-1, 0>> ELSE IF p \in zd THEN <<TB + (b - 128), 1>> ELSE <<TB + (b - 128), 0>>)
+     \* bytes 0x90..0x9F: a BLOB - term (b - 0x90) extending to the end of the input (lexemes of any length, e.g. 65535)
+     ELSE IF b >= 144 /\ b < 160
+     THEN (IF b - 144 >= Gs[gg].nt THEN <<-1, 0>> ELSE <<TB + (b - 144), Len(bytes) - p>>)
      ELSE IF b < 64 \/ b > 127 \/ idx >= Gs[gg].nt \/ ln > Len(bytes) - p THEN <<-1, 0>> ELSE <<TB + idx, ln>>
 LexDispatch(gg, bytes, p, zd) == IF Gs[gg].lex = "chars" THEN LexChars(gg, bytes, p)
                                  ELSE IF Gs[gg].lex = "byte" THEN LexByte(gg, bytes, p, zd) ELSE LexRefAt(gg, bytes, p)
